@@ -214,7 +214,7 @@ pub proof fn lemma_layer_walk_shape(q: Seq<FQ>, w: Seq<nat>, cs: nat, group: Seq
     }
 }
 
-//@repo crates/fri/src/layer.rs fn compute_coset_elements props=C06,C07 rules=H_drain_query,H_drain_witness
+//@repo crates/fri/src/layer.rs fn compute_coset_elements props=C01,C02,C06,C07 rules=H_drain_query,H_drain_witness
 #[verifier::loop_isolation(false)]
 pub fn compute_coset_elements(
     queries: &mut Vec<FriLayerQuery>,
@@ -227,7 +227,7 @@ pub fn compute_coset_elements(
         cs_ok(coset_size@),             // [C18:coset-size-in-2-4-8-16]
         fri_group@.len() >= 16,         // [C18:fri-group-has-16-elements]
     ensures
-        r.is_ok() <==> coset_walk(fqs(old(queries)@), fv(old(sibling_witness)@), coset_start_index@, fv(fri_group@), 0, coset_size@, Seq::<nat>::empty(), 0) is Some, // [C07,C18:coset-errs-exactly-when-sibling-leaves-run-out]
+        r.is_ok() <==> coset_walk(fqs(old(queries)@), fv(old(sibling_witness)@), coset_start_index@, fv(fri_group@), 0, coset_size@, Seq::<nat>::empty(), 0) is Some, // [C01,C02,C07,C18:coset-errs-exactly-when-sibling-leaves-run-out]
         r.is_ok() ==> ({
             let o = coset_walk(fqs(old(queries)@), fv(old(sibling_witness)@), coset_start_index@, fv(fri_group@), 0, coset_size@, Seq::<nat>::empty(), 0)->Some_0;
             &&& fv(r->Ok_0.0@) == o.elems
@@ -288,7 +288,7 @@ pub fn compute_coset_elements(
 }
 //@end
 
-//@repo crates/fri/src/layer.rs fn compute_next_layer props=C06,C07 rules=H_extend_iter_coset
+//@repo crates/fri/src/layer.rs fn compute_next_layer props=C01,C02,C06,C07 rules=H_extend_iter_coset
 pub fn compute_next_layer(
     queries: &mut Vec<FriLayerQuery>,
     sibling_witness: &mut Vec<Felt>,
@@ -298,7 +298,7 @@ pub fn compute_next_layer(
         cs_ok(params.coset_size@),           // [C18:coset-size-in-2-4-8-16]
         params.fri_group@.len() >= 16,       // [C18:fri-group-has-16-elements]
     ensures
-        r.is_ok() <==> layer_spec(fqs(old(queries)@), fv(old(sibling_witness)@), params.coset_size@, fv(params.fri_group@), params.eval_point@) is Some, // [C07,C18:layer-errs-exactly-when-sibling-leaves-run-out]
+        r.is_ok() <==> layer_spec(fqs(old(queries)@), fv(old(sibling_witness)@), params.coset_size@, fv(params.fri_group@), params.eval_point@) is Some, // [C01,C02,C07,C18:layer-errs-exactly-when-sibling-leaves-run-out]
         r.is_ok() ==> ({
             let o = layer_spec(fqs(old(queries)@), fv(old(sibling_witness)@), params.coset_size@, fv(params.fri_group@), params.eval_point@)->Some_0;
             &&& fqs(r->Ok_0.0@) == o.next
@@ -306,7 +306,7 @@ pub fn compute_next_layer(
             &&& fv(r->Ok_0.2@) == o.yvals
             &&& fv(final(sibling_witness)@) == o.w
             &&& final(queries)@.len() == 0
-        }), // [C06,C07:next-layer-is-fold-of-each-gathered-coset-and-all-coset-rows-are-returned-for-decommitment]
+        }), // [C01,C02,C06,C07:next-layer-is-fold-of-each-gathered-coset-and-all-coset-rows-are-returned-for-decommitment]
 {
     let mut next_queries/*+*/: Vec<FriLayerQuery>/*-*/ = Vec::new();
     let mut verify_indices/*+*/: Vec<Felt>/*-*/ = Vec::new();
